@@ -80,6 +80,31 @@ PROPS = {
         "technique": "Lean 4 proof (induction over operation lists) + twin-run differential correspondence",
         "assumptions": ["holder signatures are deterministic (RFC 6979), so twin runs are comparable byte for byte"],
     },
+    "C16": {
+        "rule": "type-directed generators for every wire type (SessionData, SessionEstablishment, COSE_Key of every curve/key type and odd coordinate lengths, Handover variants, SessionTranscript, ItemsRequest/DocRequest/DeviceRequest, DeviceResponse with application-specific error codes and every status, "
+                "ValidityInfo with non-UTC offsets and sub-second parts, DeviceKeyInfo/KeyAuthorizations/key info, BLE/NFC/Wi-Fi/server retrieval options, DeviceEngagement, Mso, IssuerSigned, IssuerSignedItemBytes, Mdoc, device::Document, DigestId, DigestAlgorithm, both status tables over 0..39, error codes at boundaries, NFC length bounds, out-of-domain rejects); "
+                "per value: Rust to_vec/from_slice/to_vec (same value, byte fixed point), Lean CBOR-layer re-encoding and typed-model re-encoding must reproduce the bytes; JWK conversion and UTC/second-precision time emission checked by Lean predicates. Distinct by encoded bytes",
+        "xlate_items": ["session.rs::Status", "device_response.rs::Status"],
+        "trusted_base": ["Model/Cbor.lean as model of ciborium's Value codec (validated on every generated encoding)", "Model/Wire.lean typed codecs (hand-written; status tables generated) validated by re-encoding real bytes",
+                         "Spec/Time.lean civil-date arithmetic validated against the `time` crate", "ssi-jwk JSON view used by the harness to read JWK fields"],
+        "level_text": "Lean theorems: dec(enc v) = v, byte fixed point and injectivity for EVERY well-formed CBOR value (structural induction, no size bound); typed round trips for SessionData, COSE_Key, Tag24 (bytes preserved), SessionEstablishment, both status tables (regenerated), error codes incl. rejection of RFU codes; generic lift from tree-level to byte-level round trip. All ~30 wire types are tied by differential round-trip runs; types without a typed Lean model are correspondence-only and named in the evidence.",
+        "level_note": "Trusted: Lean kernel; CBOR model = ciborium as used (validated, not proved about ciborium); RFC 3339 formatting/parsing is the time crate's.",
+        "technique": "Lean 4 proof (mutual structural induction over the CBOR tree; case analysis over generated tables) + type-directed differential correspondence",
+        "assumptions": [],
+    },
+    "C18": {
+        "rule": "every message emitted in generated sessions is fed as raw bytes to the Lean CDDL validator: device engagements for 37 retrieval configurations (no / BLE central, peripheral, both, with address, neither / NFC at boundary lengths / Wi-Fi with every subset of its optional fields / combinations / server retrieval), "
+                "session establishment, every request (decrypted) and response (decrypted: normal single- and multi-document, unheld-document errors, status 11/12 error responses), status-carrying SessionData, and issued MSOs for five device-key kinds x three digest algorithms with key authorisations, key info, expected update, non-UTC sub-second validity; "
+                "plus the device-signature algorithm vs device-key curve check on every returned document. Distinct by message bytes",
+        "xlate_items": ["session.rs::Status", "device_response.rs::Status"],
+        "trusted_base": ["Spec/Cddl.lean: the validator, transcribed by hand from the ISO 18013-5 CDDL as recalled in DESIGN.md Appendix A (no copy of the standard in the sandbox)",
+                         "Generated/Tables.lean: status tables translated from the source on every run", "Model/Wire.lean typed encoders for the modelled subset, tied by the C16 correspondence",
+                         "harness decrypts request/response ciphertexts with the session keys read from the stringified state"],
+        "level_text": "Lean theorems: for every value of the modelled message types (SessionData incl. status-only, SessionEstablishment, COSE_Key, both status tables as regenerated from the source) the emitted CBOR satisfies the ISO CDDL validator; the validator itself is executable Lean and is applied to the raw bytes of every message kind the real library emits in the generated sessions and to every issued MSO (this covers the message types whose typed model is not yet proved).",
+        "level_note": "Trusted: Lean kernel; CDDL transcription; for DeviceRequest/DeviceResponse/MSO/DeviceEngagement the 'for all' is the validator run over generated emissions (typed Lean encoders for them are future work, named in evidence), i.e. correspondence, not yet theorem.",
+        "technique": "Lean 4 proof (case analysis over generated tables and typed encoders) + independent Lean CDDL validator on real emissions",
+        "assumptions": ["CDDL as recalled (DESIGN.md Appendix A)"],
+    },
     "C20": {
         "rule": "requested ages 0..99 x every absent/true/false assignment over a fixed age universe (exhaustive), "
                 "random larger honest/dishonest claim sets, and out-of-domain spellings (+NN, 0NN, non-boolean values, "
